@@ -213,6 +213,8 @@ func (fr *Frame) nameValue(prefix string, v Value) Value {
 	return v
 }
 
+var varargAllocs = map[*ssa.Alloc]bool{}
+
 // ---------------------------------------------------------------------------
 // Loops
 
@@ -329,7 +331,7 @@ func (fr *Frame) enterLoop(li *loopInfo, ins []*State, predIdx []int) (*State, e
 	li.iter = iter
 	lr.iter = iter
 	hst.alloc = r.ctx.fresh("alloc", sRef)
-	r.assume(hst, "(bvule "+entrySt.alloc+" "+hst.alloc+")")
+	r.assume(hst, refLe(entrySt.alloc, hst.alloc))
 	r.assume(hst, "(bvsle #x0000000000000000 "+iter.T+")")
 	var comps []string
 	for c := range log {
@@ -345,7 +347,7 @@ func (fr *Frame) enterLoop(li *loopInfo, ins []*State, predIdx []int) (*State, e
 		// loop-invariant reference keep their value
 		var S []string
 		for ref := range log[c] {
-			if ref == "*" {
+			if ref == "*" || ref == "$fresh" || r.allocRefs[ref] {
 				continue
 			}
 			inv := true
@@ -388,7 +390,7 @@ func (fr *Frame) enterLoop(li *loopInfo, ins []*State, predIdx []int) (*State, e
 }
 
 func frameFormula(nw, old, allocBound string, except []string) string {
-	conds := []string{"(bvult r!f " + allocBound + ")"}
+	conds := []string{refLt("r!f", allocBound)}
 	for _, x := range except {
 		conds = append(conds, not(eq("r!f", x)))
 	}
@@ -497,6 +499,13 @@ func (fr *Frame) execBlock(b *ssa.BasicBlock, st *State) error {
 			// handled at block entry
 		case *ssa.DebugRef:
 		case *ssa.Alloc:
+			if x.Comment == "varargs" {
+				// the argument array of a variadic call (fmt.Errorf): contents are not modelled
+				at := x.Type().(*types.Pointer).Elem()
+				fr.setVal(x, &AddrV{Kind: "arr", Ref: refLit(0xfffe), Ty: at, N: at.Underlying().(*types.Array).Len()})
+				varargAllocs[x] = true
+				continue
+			}
 			v, err := fr.execAlloc(st, x.Type().(*types.Pointer).Elem(), x.Type())
 			if err != nil {
 				return err
@@ -523,12 +532,21 @@ func (fr *Frame) execBlock(b *ssa.BasicBlock, st *State) error {
 			}
 			fr.setVal(x, sv.F[x.Field])
 		case *ssa.IndexAddr:
+			if a, ok := x.X.(*ssa.Alloc); ok && varargAllocs[a] {
+				fr.setVal(x, &AddrV{Kind: "vararg"})
+				continue
+			}
 			v, err := fr.indexAddr(st, x)
 			if err != nil {
 				return err
 			}
 			fr.setVal(x, v)
 		case *ssa.UnOp:
+			if key, ok := fr.readOrd[x]; ok && fr.contract != nil && fr.depth == 0 {
+				if err := fr.ghostAt("$read:"+key, st); err != nil {
+					return err
+				}
+			}
 			v, err := fr.unop(st, x)
 			if err != nil {
 				return err
@@ -559,6 +577,9 @@ func (fr *Frame) execBlock(b *ssa.BasicBlock, st *State) error {
 			}
 			switch a := addr.(type) {
 			case *AddrV:
+				if a.Kind == "vararg" {
+					continue
+				}
 				if err := r.store(st, a, val); err != nil {
 					return err
 				}
@@ -758,6 +779,72 @@ func (fr *Frame) execBlock(b *ssa.BasicBlock, st *State) error {
 		}
 	}
 	return nil
+}
+
+// ghostAt proves and then assumes the ghost assertions anchored at key ("$read:T.f#k").
+func (fr *Frame) ghostAt(key string, st *State) error {
+	r := fr.run
+	for _, cl := range fr.contract.AtCall {
+		if fmt.Sprintf("%s#%d", cl.Call, cl.CallK) != key || !r.active(cl.Tags) {
+			continue
+		}
+		g, err := fr.evalBool(cl.E, st, nil)
+		if err != nil {
+			return fmt.Errorf("at %s %s: %v", key, cl.Label, err)
+		}
+		if cl.Kind == "assert" {
+			r.addOblig(&Oblig{Name: fr.oblName("assert", strings.TrimPrefix(key, "$read:")+"."+cl.Label), Kind: "assert", Func: r.eng.fnName(fr.fn), Label: cl.Label, Tags: cl.Tags, Text: cl.Text, Guard: st.guard, Goal: g})
+		}
+		r.assume(st, g)
+		// a cut of the form  p.f == e  also rebinds the location to e, so that later
+		// obligations see the specification's expression instead of the merged history
+		if b, ok := cl.E.(*EBin); ok && b.Op == "==" {
+			if sel, ok := b.X.(*ESel); ok {
+				env := &evalEnv{fr: fr, st: st, old: fr.entry}
+				base, err1 := fr.evalExpr(sel.X, env)
+				rhs, err2 := fr.evalExpr(b.Y, env)
+				if err1 == nil && err2 == nil {
+					fr.rebind(st, base, sel.Name, rhs)
+				}
+			}
+		}
+	}
+	return nil
+}
+
+// rebind stores v into field name of *base when both are simple scalars.
+func (fr *Frame) rebind(st *State, base Value, name string, v Value) {
+	r := fr.run
+	p, ok := base.(*Sc)
+	if !ok || p.K != kRef || p.Ty == nil {
+		return
+	}
+	pt, ok := p.Ty.Underlying().(*types.Pointer)
+	if !ok {
+		return
+	}
+	u, ok := pt.Elem().Underlying().(*types.Struct)
+	if !ok {
+		return
+	}
+	for i := 0; i < u.NumFields(); i++ {
+		f := u.Field(i)
+		if f.Name() != name {
+			continue
+		}
+		ls, err := leavesOf(f.Type())
+		if err != nil || len(ls) != 1 {
+			return
+		}
+		s, ok := v.(*Sc)
+		if !ok || s.sort() != ls[0].sort {
+			return
+		}
+		nm := fieldComp(pt.Elem(), f)
+		srt := sArr(sRef, ls[0].sort)
+		h := r.heap.get(st, nm, srt)
+		r.heap.set(st, nm, srt, sto(h, p.T, r.ctx.define("cut", ls[0].sort, s.T)), p.T)
+	}
 }
 
 func posLabel(r *Run, p token.Pos) string {
@@ -1166,7 +1253,7 @@ func (fr *Frame) scalarOp(st *State, op token.Token, x, y *Sc, in ssa.Instructio
 		case token.LOR, token.OR:
 			return boolV(or(x.T, y.T)), nil
 		}
-	case kRef, kStr:
+	case kRef, kStr, kArr:
 		switch op {
 		case token.EQL:
 			return boolV(eq(x.T, y.T)), nil
